@@ -1,4 +1,5 @@
 import Cadence.Model.Client
+import Cadence.Check.Float
 /-!
 Executable property predicates for C01–C04, evaluated on the **implementation's** observation of
 one metric call (result, strings handed to the sink, error-handler invocations).  They are written
@@ -26,21 +27,24 @@ def inputsDelimFree (cfg : ClientCfg) (key : Str) (bops : List BOp) : Bool :=
   Fmt.delimFree (normPrefix cfg.pfx) && Fmt.delimFree key && cfg.tags.all Tag.delimFree &&
   (match cfg.cid with | some c => Fmt.delimFree c | none => true) && bops.all BOp.delimFree
 
-/-- the numeric meaning of a value, for the parse-back check of C02 -/
+/-- the numeric meaning of a value, for the parse-back check of C02: integer numerals must parse to
+exactly the supplied value; float numerals must lie in the rounding interval of the supplied bits
+(`RoundTrips`, exact integer arithmetic) -/
 def tokenOk (v : Val) (toks : List Str) : Bool :=
   match v with
   | .signed i => toks.map parseInt == [some i]
   | .psigned l => toks.map parseInt == l.map some
   | .unsigned n => toks.map parseNat == [some n]
   | .punsigned l => toks.map parseNat == l.map some
-  | .float t => toks == [t.text]
-  | .pfloat l => toks == l.map (·.text)
+  | .float t => toks.length == 1 && toks.all (RoundTrips t.bits)
+  | .pfloat l => toks.length == l.length && (toks.zip l).all fun (tok, t) => RoundTrips t.bits tok
 
 /-- what the caller supplied, independent of how the library combines it -/
 structure Supplied where
   name : Str
   kind : Kind
   rate : Option Str
+  rateTok : Option FloatTok := none
   tags : List Tag
   cid : Option Str
   ts : Option Nat
@@ -55,6 +59,7 @@ def supplied (cfg : ClientCfg) (e : Entry) (key : Str) (bops : List BOp) : Suppl
   { name := (if cfg.pfx.isEmpty then [] else trimDots cfg.pfx ++ [DOT]) ++ key
     kind := e.kind
     rate := lastSome (bops.map fun | .rate r => some r.text | _ => none)
+    rateTok := lastSome (bops.map fun | .rate r => some r | _ => none)
     tags := cfg.tags ++ bops.filterMap fun | .tag k v => some ⟨some k, v⟩ | .tagv v => some ⟨none, v⟩ | _ => none
     cid := match lastSome (bops.map fun | .cid c => some c | _ => none) with
            | some c => some c
@@ -71,8 +76,10 @@ def ckLine (cfg : ClientCfg) (e : Entry) (key : Str) (v : Val) (bops : List BOp)
     if l.name ≠ s.name then viol "C01" "name is not prefix-without-trailing-dots + '.' + key"
     else if l.kind ≠ s.kind then viol "C01" "type code is not the code of the kind that was called"
     else if l.vals.any (·.isEmpty) then viol "C01" "a line without a value was emitted"
-    else if !tokenOk v l.vals then viol "C02" "value numerals do not parse back to the supplied values"
-    else if l.rate ≠ s.rate then viol "C02" "sampling-rate section differs from what was supplied"
+    else if !tokenOk v l.vals then viol "C02" "value numerals do not parse back to exactly the supplied values (integers) / bits (floats)"
+    else if l.rate.isSome ≠ s.rateTok.isSome then viol "C02" "sampling-rate section present although none was supplied, or missing"
+    else if (match l.rate, s.rateTok with | some r, some t => !RoundTrips t.bits r | _, _ => false) then
+      viol "C02" "the sampling rate on the wire does not parse back to the bit-identical number"
     else if l.tags ≠ s.tags then viol "C04" "tags are not defaults-then-call-tags in order"
     else if l.cid ≠ s.cid then viol "C04" "container id is not the per-call one, else the default"
     else if l.ts.bind parseNat ≠ s.ts ∨ (l.ts.isSome ≠ s.ts.isSome) then viol "C01" "timestamp section differs from what was supplied"
